@@ -104,6 +104,42 @@ def run(tier, v):
             v.known_hit("D16_raw_payload", WHAT["D16_raw_payload"])
             continue
         v.violation(dict(ctx, differences=bad, observed=res.get("v", res["r"])))
+    # ---- the same connection starts as TCP connections through the OUTPUT layer of the crate (process_ipv4_packet: packet parser, flow
+    # table, HTTP/2 processor, create_observable_package, matcher): the request / response handed to the caller there is the same
+    from props import c10
+    cvec = os.path.join(wd, "conns.ndjson")
+    conns, cmeta = [], []
+    for i, e in exp.items():
+        if tier != "thorough" and e["note"] in ("rep", "continuation", "values", "dynsettings") and i % 3:
+            continue
+        data = bytes(e["bytes"])
+        if len(data) > 60000:
+            continue
+        cip, sip, cp = (10, 6, 0, 1), (10, 6, 0, 2), 30000 + (i % 30000)
+        syn = c10.frame(cip, sip, cp, 80, 100, 0, 0x02, ipid=1)
+        seg = c10.frame(cip, sip, cp, 80, 101, 1, 0x18, data, ipid=2) if e["isreq"] else c10.frame(sip, cip, 80, cp, 1, 101, 0x18, data, ipid=2)
+        conns.append([syn.hex(), seg.hex()])
+        cmeta.append(i)
+    vlib.write_ndjson(cvec, [{"id": 0, "op": "conns", "conns": conns}])
+    cout = os.path.join(wd, "conns.out")
+    vlib.run_hv("http", cvec, cout)
+    n_out = 0
+    for rows_, i in zip(next(vlib.read_ndjson(cout))["out"], cmeta):
+        e = exp[i]
+        n_out += 1
+        last = rows_[-1]
+        ctx = {"family": e["note"], "kind": "request" if e["isreq"] else "response", "bytes": bytes(e["bytes"]).hex()[:4000], "via": "process_ipv4_packet (one segment after the SYN)"}
+        if last["r"] == "panic":
+            v.violation(dict(ctx, observed="panic: " + last["e"]))
+            continue
+        rep = last.get("req" if e["isreq"] else "resp") if last["r"] == "ok" else None
+        if rep is None:
+            v.violation(dict(ctx, observed="not reported (%s)" % last["r"], expected=e["exp"]))
+            continue
+        bad = diff(e["exp"], e["isreq"], rep["v"])
+        if bad:
+            v.violation(dict(ctx, differences=bad, observed=rep["v"], expected=e["exp"]))
+    n += n_out
     return v.finish("model_checking", {
         "states": r.distinct, "transitions": r.generated, "traces_validated_against_impl": n,
         "evaluations": n, "distinct_nontrivial": n,
